@@ -163,7 +163,7 @@ Section Build.
 
   Inductive scall :=
   | SAddFile (rel : bytes) | SAddFiles (rel : bytes) | SAddFileAs (rel url : bytes) | SAddFilesAs (rel to : bytes)
-  | SAddData (path data : bytes) | SSassRef (rel ref : bytes).
+  | SAddData (path data : bytes) | SSassRef (rel ref : bytes) | SSassCss (rel css : bytes).
   Inductive call := PCompile (rel : bytes) | PStatics (cs : list scall).
 
   Definition path_for (base p : bytes) : bytes :=
@@ -187,6 +187,12 @@ Section Build.
         | (st', true) => Some {| st := st'; sw := sw s1 |}
         | (_, false) => None
         end
+    | SSassCss rel css =>
+        (* the compiler is an oracle: given the css it returned, the file is announced (by rsass's
+           CargoContext) and the css is added as <stem>.css through add_file_data *)
+        let p := path_for base rel in
+        let s1 := sread (ssay s (rerun p)) p in
+        Some (sapply s1 (OpData (with_extension p (b "css")) css))
     end.
 
   Definition ructe_new (w : world) : world * bytes :=
